@@ -8,6 +8,7 @@ mod net;
 mod wire;
 mod text;
 mod netprops;
+mod conv;
 mod c02;
 mod c08;
 mod c13;
@@ -37,6 +38,12 @@ fn main() {
             "--replay" => { a.replay = Some(argv[i + 1].clone()); i += 2; },
             x => { a.extra.push(x.to_string()); i += 1; },
         }
+    }
+    // replays of conversation cases are shared by several properties
+    if let Some(r) = &a.replay {
+        let prop = argv[1].to_uppercase();
+        if r.starts_with("aconv ") { std::process::exit(conv::replay_aconv(&prop, r)); }
+        if r.len() > 7 && &r[1..7] == " conv " { std::process::exit(conv::replay_conv(&prop, r)); }
     }
     match argv[1].as_str() {
         "c02" => c02::run(&a),
